@@ -1301,9 +1301,18 @@ def main():
         import pysph
         repo = os.path.dirname(os.path.dirname(os.path.abspath(pysph.__file__)))
     import warnings
-    with warnings.catch_warnings():
-        warnings.simplefilter('ignore')
-        tab = T2L.scan(repo)
+    try:
+        with warnings.catch_warnings():
+            warnings.simplefilter('ignore')
+            tab = T2L.scan(repo)
+    except T2L.Unsupported as e:
+        # a one_timestep outside the translated language: the theorems say
+        # nothing about it; reported as a broken tie, never skipped
+        R.disagree({'translator': 'timestep2lean'}, 'program in the one_timestep language',
+                   'UNSUPPORTED: %s' % e, 'translation of the current source')
+        R.d['search'] = {'skipped': 'no program to run the model on', 'found': 0}
+        R.write(a.out)
+        return
     os.environ.setdefault('OMP_NUM_THREADS', '1')
     if a.replay:
         rp = json.load(open(a.replay))
